@@ -10,5 +10,24 @@ func init() {
 		skelTarget{Name: "monitor.CreateInformers", File: mo, Recv: "monitor", Func: "CreateInformers",
 			Fields: []string{"eventsEnabled", "VaryingInformers"},
 			Calls:  []string{"enableKubeEventCb", "CreateInformersForNamespace", "createInformersForNamespace", "Store", "Load", "Delete", "start"}},
+		// Start(): the model's `initial` state (eventsEnabled false, every informer locked, a cancel
+		// entry per namespace that existed) is what CreateInformers + Start leave behind
+		skelTarget{Name: "monitor.Start", File: mo, Recv: "monitor", Func: "Start",
+			Fields: []string{"eventsEnabled", "ResourceInformers", "VaryingInformers", "cancelForNs"},
+			Calls:  []string{"enableKubeEventCb", "Store", "Load", "CompareAndSwap", "Range", "start"}},
 	)
+}
+
+// Translated function (tie T4) of C01: HookMetadata.IsSynchronization — the test taskHandleHookRun
+// applies, also on a retry of a combined run, before it unlocks the monitors of a task.
+func init() {
+	transTargets = append(transTargets, transTarget{
+		File: "pkg/hook/task_metadata/task_metadata.go", Recv: "HookMetadata", Func: "IsSynchronization",
+		Lean: "hookMetaIsSynchronization", Pure: true, Ret: "Bool",
+		ExtraParams: []string{"(btype : Nat)", "(bindingContext : List ShellOp.Combine.Ctx)"},
+		Subst: map[string]string{
+			// keys are printed by exprStr: call arguments and index expressions are not part of the key
+			"m.BindingContext":                       "bindingContext",
+			"m.BindingContext[].IsSynchronization()": "(btype == 2 && (bindingContext.getD 0 default).typ == 0)",
+		}})
 }
